@@ -220,6 +220,12 @@ def check(prog: Program, res: Result) -> None:
     check_col(prog, res)
     check_pair(prog, res)
     res.borrow(c09.check_truth, "C10-truth", prog)
+    # a matched detection keeps the id it was matched to (only the UNMATCHED detections get a new one), the feature list is
+    # aligned with the instances it was computed from, and the matched matrix is read at (row, col): each of these breaks
+    # the continuity of an identity without breaking the count
+    res.borrow(c09.check_unmatched, "C10-unmatched", prog)
+    res.borrow(c09.check_features_aligned, "C10-align", prog)
+    res.borrow(c09.check_matcher_axes, "C10-axes", prog)
     from . import _nanred
     _nanred.check_nan_reductions(prog, res, "C10-nan", ["sleap_nn.tracking.utils:get_bbox", "sleap_nn.tracking.utils:get_centroid"], floor=3)
     from . import _match
